@@ -24,7 +24,8 @@ Expected(ref, tokens, stack, marker) ==
       mine == { i \in SegTokens(tokens, from, to) : tokens[i][1] \in ToSet(ref.terms) }
       off == IF mine = {} THEN -1 ELSE Min({ tokens[i][2] : i \in mine })
       end == IF mine = {} THEN -1 ELSE Max({ tokens[i][3] : i \in mine })
-      val == IF mine = {} THEN -1 ELSE IF ref.val = "nonterm" THEN 1000 + off ELSE off
+      first == IF mine = {} THEN 0 ELSE CHOOSE i \in mine : tokens[i][2] = off
+      val == IF mine = {} THEN -1 ELSE IF tokens[first][1] \in ToSet(ref.hterms) THEN 1000 + off ELSE off
   IN CASE ref.form = "first" -> <<from>>
        [] ref.form = "last" -> <<to>>
        [] ref.form = "left" -> <<from, to>>
